@@ -46,9 +46,41 @@ def inputs(tier):
     for name in CFG_EDITS:
         if not name.startswith('shared'):
             out += [dict(i, cfg=name) for i in base[:: (2 if tier == 'quick' else 1)]]
+    # several conformations (a residue mutated or displaced in the second model): the bounds and sign rules hold in every conformation
+    # and - being convex - in the reported average
+    for ks, lay in ((('ASP', 'LYS', 'GLU'), 'line'), (('GLU', 'HIS', 'ASP'), 'star'), (('TYR', 'ARG', 'ASP'), 'line'), (('CYS', 'LYS', 'GLU'), 'star'),
+                    (('HIS', 'GLU', 'GLU'), 'line'), (('LYS', 'ASP', 'TYR'), 'star')):
+        for how in ('mutant-first', 'mutant-second', 'displaced'):
+            out.append(dict(src='models', d=corpus.cluster_desc(ks, lay, 3.0, 'deep'), how=how))
     if tier == 'thorough':
         out += [dict(src='corpus', d=corpus.file_desc(k)) for k in gen.PROTEINS]
     return out
+
+
+def build_models(case, seed):
+    """The cluster as two MODELs; in one of them the first part's residue is an alanine (group absent) or shifted by 0.6 A."""
+    s = corpus.build(case['d'], seed)
+    kind = case['d']['kinds'][0]
+
+    def variant(items, how):
+        out = []
+        for it in items:
+            if isinstance(it, str):
+                out.append(it)
+                continue
+            b = it.clone()
+            if b.chain == 'A' and b.resname.strip() == kind:
+                if how == 'mutant':
+                    if b.name not in gen.BACKBONE + ('CB', 'OXT'):
+                        continue
+                    b.resname = 'ALA'
+                elif how == 'displaced' and b.name not in gen.BACKBONE + ('CB',):
+                    b.x, b.y, b.z = b.x + 400, b.y - 300, b.z + 300
+            out.append(b)
+        return out
+    m1 = variant(s.items, 'mutant' if case['how'] == 'mutant-first' else 'same')
+    m2 = variant(s.items, 'mutant' if case['how'] == 'mutant-second' else ('displaced' if case['how'] == 'displaced' else 'same'))
+    return gen.S(['MODEL        1\n'] + m1 + ['ENDMDL\n', 'MODEL        2\n'] + m2 + ['ENDMDL\n']).renumber_serials()
 
 
 def plan(tier, seed):
@@ -169,7 +201,7 @@ def cfg_path(name):
 
 
 def run_case(case, ctx, acc):
-    s = corpus.build(case['d'], ctx.seed)
+    s = build_models(case, ctx.seed) if case['src'] == 'models' else corpus.build(case['d'], ctx.seed)
     text = gen.to_text(s)
     opts = ()
     if case.get('cfg'):
@@ -177,6 +209,11 @@ def run_case(case, ctx, acc):
     mol = pk.run(text, opts)
     rec = pk.record(mol)
     v, seen = monitor(rec, mol.version.parameters)
+    if len(rec['conformations']) > 1:
+        # the reported average of several conformations: ranges, bounds and signs survive averaging (antisymmetry does not when a
+        # partner is missing from some conformations)
+        va, _ = monitor(rec, mol.version.parameters, confs=['AVR'])
+        v += [(ck + '/average', what) for ck, what in va if not ck.startswith('coulomb-not-antisymmetric')]
     nt = any(any(g['dets'][t] for t in g['dets']) for c in rec['conformations'] for g in rec['confs'][c]['groups'])
     acc.case(nontrivial_key=jhash(case) if nt else None)
     for x in seen:
